@@ -161,6 +161,12 @@ func (in *Interp) equals(t types.Type, x, y value) value {
 	if ys, ok := y.(*Sym); ok {
 		return in.symEq(ys, x)
 	}
+	if xf, ok := x.(symFloat); ok {
+		return in.symFloatEq(xf, y)
+	}
+	if yf, ok := y.(symFloat); ok {
+		return in.symFloatEq(yf, x)
+	}
 	switch x := x.(type) {
 	case bool:
 		return x == y.(bool)
